@@ -51,9 +51,9 @@ CLAIMED = {
         "iterators in lock step; (f) value, gradient, sensitivity and Hessian requests hand the projection/distributable layer the one "
         "symmetric segment range (-max_segment_num_to_process, +max_segment_num_to_process); (g) in the penalised wrappers the prior is asked "
         "about the same input images as the data part and its share is accumulated separately from the output (defect F13, fixed); (h) "
-        "every get_(empty_)related_viewgrams request of the Hessian code passes the TOF index of the indices it iterates over explicitly "
-        "(the default argument overwrites it with 0) - 7 call sites violate this today and are recorded as KNOWN FINDING F15 (TOF "
-        "Hessian products wrong; replayed; not repaired because the 7-line repair is not sufficient on its own). All formula clauses of C05 (value, "
+        "every get_(empty_)related_viewgrams request of the objective function's routines passes the TOF index of the indices it iterates "
+        "over explicitly (the default argument overwrites it with 0) and all requests get_viewgrams() makes for one call name the same "
+        "TOF index (defects F15 and F16, both fixed). All formula clauses of C05 (value, "
         "gradient, sensitivity, Hessian, subset sums, penalised = unpenalised - prior) are numerical and NOT decided.",
         technique="static analysis: finite-domain abstract interpretation of flag typestate over clang CFG; setter-invalidation "
         "must-pass-through with idiom ordering",
